@@ -3,6 +3,7 @@ import io as _io
 import locale
 import os
 import tempfile
+import math
 import warnings
 
 import numpy as np
@@ -464,6 +465,71 @@ def pred_patterns(case, ctx):
     return len(pats) >= 2 or any(len(p) >= 2 for p in pats)
 
 
+# ------------------------------------------------------------------ long files
+
+@st.composite
+def long_file_case(draw):
+    return {"loader": draw(st.sampled_from(sorted(FORMATS) + ["load_ragged_time_series"])), "rows": draw(st.sampled_from([3000, 12000, 40000, 70000])),
+            "seed": draw(st.integers(0, 10 ** 6)), "sep": draw(st.sampled_from(["\t", " ", ","])), "route": draw(st.sampled_from(["stringio", "path"])),
+            "grid": draw(st.sampled_from(["hop256", "decimal", "dyadic"]))}
+
+
+def pred_long_file(case, ctx):
+    """A few thousand to 70 000 rows (an f0 track at 5.8 ms hop is ~10 000 rows per minute): every row must come back, in order."""
+    rs = np.random.RandomState(case["seed"])
+    n, loader, sep = case["rows"], case["loader"], case["sep"]
+    g_ = {"hop256": 256 / 44100, "decimal": 0.01, "dyadic": 1 / 64}[case["grid"]]
+    t = np.arange(n) * g_
+    kw = {} if sep != "," else {"delimiter": ","}
+    if loader == "load_ragged_time_series":
+        vals = [list(np.round(rs.rand(rs.randint(0, 4)) * 1000, 3)) for _ in range(n)]
+        lines = [sep.join([repr(float(a))] + [repr(float(x)) for x in v]) for a, v in zip(t, vals)]
+        cols_exp = None
+    else:
+        kinds = FORMATS[loader]
+        cols = []
+        for k, kind in enumerate(kinds):
+            if kind == "s":
+                cols.append(["seg%d" % (i % 37) for i in range(n)])
+            elif k == 0:
+                cols.append([float(x) for x in t])
+            elif k == 1 and "interval" in loader:
+                cols.append([float(x) for x in t + g_])
+            else:
+                cols.append([float(x) for x in np.round(rs.rand(n) * 1000, 4)])
+        lines = [sep.join(_fmt(c[i]) for c in cols) for i in range(n)]
+        cols_exp = cols
+    txt = "\n".join(lines) + "\n"
+    with deliver(txt, case["route"]) as obj:
+        out, _ = ctx.call(_call, getattr(mio, loader), obj, **kw)
+    got = out if isinstance(out, tuple) else (out,)
+    if loader == "load_ragged_time_series":
+        gt_, gv = got
+        if len(gt_) != n or len(gv) != n:
+            raise Violation("load_ragged_time_series returned %d times / %d value rows for a file of %d rows (%d characters)" % (len(gt_), len(gv), n, len(txt)))
+        if np.asarray(gt_, dtype=float).tobytes() != t.astype(float).tobytes():
+            raise Violation("load_ragged_time_series: times differ from the %d written ones" % n)
+        for i in (0, n // 2, n - 1):
+            if [float(x) for x in gv[i]] != [float(x) for x in vals[i]]:
+                raise Violation("load_ragged_time_series: row %d came back as %r, written %r" % (i + 1, list(gv[i]), vals[i]))
+    else:
+        flat = []
+        for c in got:
+            a = np.asarray(c) if not isinstance(c, list) else None
+            if a is not None and a.ndim == 2:
+                flat += [a[:, 0], a[:, 1]]
+            else:
+                flat.append(c)
+        if any(len(c) != n for c in flat):
+            raise Violation("%s returned %r rows for a file of %d rows (%d characters)" % (loader, [len(c) for c in flat], n, len(txt)))
+        for k, (c, e) in enumerate(zip(flat, cols_exp)):
+            same = (list(c) == e) if isinstance(e[0], str) else (np.asarray(c, dtype=float).tobytes() == np.asarray(e, dtype=float).tobytes())
+            if not same:
+                raise Violation("%s: column %d of a %d-row file differs from what was written" % (loader, k, n))
+    ctx.event("characters>=2^%d" % int(math.log2(len(txt))))
+    return len(txt) > 2 ** 18
+
+
 SUBPROPS = [
     SubProp("delimited_loaders", pred_delimited, strategy=delimited_case, n=(4000, 100000), shards=(8, 16), floor=0.25,
             rule="six load_delimited-based loaders; NT = >= 2 rows with special label / exponent float / comment lines, or a fault case"),
@@ -473,4 +539,6 @@ SUBPROPS = [
             rule="single-row files; every (format, fault) combination counts"),
     SubProp("patterns", pred_patterns, strategy=pattern_case, n=(800, 20000), shards=(2, 4), floor=0.2,
             rule="MIREX pattern layout; NT = >= 2 patterns or occurrences, or a fault case"),
+    SubProp("long_files", pred_long_file, strategy=long_file_case, n=(24, 300), shards=(8, 16), floor=0.3,
+            rule="3 000 .. 70 000 rows on real-world time grids (data a pure function of a drawn seed), seven loaders, path and file object; NT = file longer than 2^18 characters"),
 ]
